@@ -41,6 +41,8 @@ def live(o):
     if fr and len(o['ts']) >= 1 and list(o['ts']) == list(range(o['ts'][0], o['ts'][0] + fr * len(o['ts']), fr)):
         # an index that knows its own frequency (pd.date_range / resample / asfreq): two operands may share the step and be out of phase
         idx = pd.date_range(T0 + datetime.timedelta(days=o['ts'][0]), periods=len(o['ts']), freq=datetime.timedelta(days=fr))
+    if o.get('dates') and len(o['ts']):
+        idx = pd.Index([(T0 + datetime.timedelta(days=i)).date() for i in o['ts']], dtype=object)      # plain datetime.date labels in an object Index (a frame built from dated records)
     f = lambda v: NAN if v is None else float(v)
     if o['k'] == 'series':
         return pd.Series([f(v) for v in o['v']], index=idx, dtype=float)
@@ -153,7 +155,7 @@ def compare(ctx, got, exp, what, mon='pointwise_model'):
         # a scalar zero denominator collapses to NaN: accepted
         ctx.check(mon, False, lambda: '%s returned %r, expected a timeseries on %s' % (what, got, exp[2]))
         return False
-    gi = [t.to_pydatetime() if hasattr(t, 'to_pydatetime') else t for t in got.index]
+    gi = [t.to_pydatetime() if hasattr(t, 'to_pydatetime') else (datetime.datetime(t.year, t.month, t.day) if type(t) is datetime.date else t) for t in got.index]
     if not ctx.check('result_index', gi == index, lambda: '%s: result index %s, aligned index %s' % (what, [t.strftime('%d') if hasattr(t, 'strftime') else t for t in gi], exp[2])):
         return False
     if exp[0] == 'series':
@@ -371,6 +373,7 @@ VALS = [-2, -1, 0, 0, 1, 2, 3, None, None, 0.5]
 
 
 _GRID = [12]
+_DATES = [False]
 _FREQ = [None]     # set per case: the operands' indices carry a frequency (mostly the same one, out of phase)
 
 
@@ -398,11 +401,14 @@ def gen_operand(rng, kind, names_pool):
         res = {'k': 'frame', 'ts': ts, 'names': names, 'cols': [[rng.choice(VALS) for _ in ts] for _ in range(k)]}
     if freq:
         res['freq'] = freq
+    elif _DATES[0]:
+        res['dates'] = True
     return res
 
 
 def gen_case(rng):
     _FREQ[0] = rng.choice([1, 2, 2, 3]) if rng.random() < 0.12 else None
+    _DATES[0] = (not _FREQ[0]) and rng.random() < 0.05
     _GRID[0] = 12 if rng.random() > 0.03 else 150        # a few long series in every tier: any size-dependent path (fast joins, batched reductions) is reached
     op = rng.choice(['add', 'add', 'sub', 'mul', 'mul', 'div', 'div', 'pow', 'gt', 'ge', 'lt', 'le', 'min', 'max', 'df_sum', 'df_mean', 'df_count'])
     join = rng.choice(['ij', 'oj'])
